@@ -17,6 +17,7 @@ import (
 	"fmt"
 	"os"
 	"path/filepath"
+	"strings"
 	"sync"
 	"sync/atomic"
 	"time"
@@ -212,7 +213,13 @@ func (b *idBook) put(key, tok int, id string) {
 	b.mu.Unlock()
 }
 
-func keyName(k int) string { return fmt.Sprintf("key-%d", k) }
+// keyName: every second key is longer than the usual index limits (129+ bytes)
+func keyName(k int) string {
+	if k%2 == 1 {
+		return fmt.Sprintf("key-%d/", k) + strings.Repeat("y", 130+37*k)
+	}
+	return fmt.Sprintf("key-%d", k)
+}
 
 func doLock(c *lcase, a *activity, key int, ttl time.Duration, cancelAfter time.Duration) (tok int, id string, ok bool) {
 	tok = c.newTok(key)
